@@ -165,7 +165,7 @@ PROPS["C19"] = {
 PROPS["C08"] = {
     "level": "exploration",
     "technique": "model-based stateful PBT (rapid) with a handle registry oracle: reuse-heavy histories with restarts and crash recovery, stale sweeps over every procedure and handle position, inode-table exhaustion",
-    "level_text": "Histories of create/remove/mkdir/rmdir/rename-over-target cycles with frequent clean restarts (so inode numbers are reused within a few steps) and crash recoveries from a copy of the disk. Registry oracle: a handle issued for a new object was never issued before in the case; LOOKUP, READDIRPLUS and CREATE replies for a live object always carry its one handle, also after restart and recovery; a stale sweep presents a dead handle (preferring ones whose inode number is live again) to 25 procedure/argument positions incl. both directories of RENAME, FSINFO, PATHCONF, COMMIT - each must answer NFS3ERR_STALE and change nothing. Forged generations and garbage handles are mixed into all operations. One deterministic unit exhausts the inode table (32766 objects), frees everything, restarts, exhausts it again and checks that all 65k handles are distinct and the old ones stale. A concurrent crash unit cuts the disk off (writes block; the contents at that moment are the crash image) while 2-4 clients keep creating and looking up names for 3-15 ms: every handle a reply carried in that window must, after recovery from the image, either name the same object or be stale, and none of the next objects created may receive it. A window unit (enumerated: REMOVE/RENAME/LOOKUP through the directory handle or SETATTR of the child x the first five lock/commit points x write mode) holds one request between dropping and retaking its locks while another client moves the child out, removes the directory, creates a directory that receives the same inode number (the table is otherwise full) and moves the child in again: the held request must not act on the new directory, and the old handle answers STALE afterwards. The same window inside CREATE/MKDIR/SYMLINK (48 enumerated cases): the request is handed the number of a removed 600-block file whose free a server stop interrupted, drops its directory to finish that free in transactions of its own, and is held at each of its lock/commit/abort points while the other client removes the still empty directory and makes one that receives its number - "made in /d" and "/d removed" cannot both succeed and the new directory stays empty. The reuse windows include RENAMEs between two directories (out of the directory whose handle goes stale, and into it), held at each of their first twelve lock/commit points. A further unit runs 2-6 clients that GETATTR 160 files through their handles on a cold cache, each starting at another file, next to writers: every reply must describe the object the handle was issued for (file id, type, size), during the run, afterwards and after a restart.",
+    "level_text": "Histories of create/remove/mkdir/rmdir/rename-over-target cycles with frequent clean restarts (so inode numbers are reused within a few steps) and crash recoveries from a copy of the disk. Registry oracle: a handle issued for a new object was never issued before in the case; LOOKUP, READDIRPLUS and CREATE replies for a live object always carry its one handle, also after restart and recovery; a stale sweep presents a dead handle (preferring ones whose inode number is live again) to 25 procedure/argument positions incl. both directories of RENAME, FSINFO, PATHCONF, COMMIT - each must answer NFS3ERR_STALE and change nothing. Forged generations and garbage handles are mixed into all operations. One deterministic unit exhausts the inode table (32766 objects), frees everything, restarts, exhausts it again and checks that all 65k handles are distinct and the old ones stale. A concurrent crash unit cuts the disk off (writes block; the contents at that moment are the crash image) while 2-4 clients keep creating and looking up names for 3-15 ms: every handle a reply carried in that window must, after recovery from the image, either name the same object or be stale, and none of the next objects created may receive it. A window unit (enumerated: REMOVE/RENAME/LOOKUP through the directory handle or SETATTR of the child x the first five lock/commit points x write mode) holds one request between dropping and retaking its locks while another client moves the child out, removes the directory, creates a directory that receives the same inode number (the table is otherwise full) and moves the child in again: the held request must not act on the new directory, and the old handle answers STALE afterwards. The same window inside CREATE/MKDIR/SYMLINK (48 enumerated cases): the request is handed the number of a removed 600-block file whose free a server stop interrupted, drops its directory to finish that free in transactions of its own, and is held at each of its lock/commit/abort points while the other client removes the still empty directory and makes one that receives its number - 'made in /d' and '/d removed' cannot both succeed and the new directory stays empty. The reuse windows include RENAMEs between two directories (out of the directory whose handle goes stale, and into it), held at each of their first twelve lock/commit points. A further unit runs 2-6 clients that GETATTR 160 files through their handles on a cold cache, each starting at another file, next to writers: every reply must describe the object the handle was issued for (file id, type, size), during the run, afterwards and after a restart.",
     "level_note": "Unsupported procedures (MKNOD, LINK, FSSTAT, exclusive CREATE) answer NOTSUPP whatever the handle, and requests with '.'/'..' as a name are refused for the name: both are not counted as staleness failures. Sampled histories.",
     "rule": ("unit = one generated history (plus the exhaustion run and the enumerated window cases, non-trivial when the request was held and the number reused). Non-trivial: the history contains a stale sweep of a dead handle whose inode number (file id) belongs to a live object of another generation at that moment. "
              "distinct = FNV hash of the history."),
